@@ -161,6 +161,9 @@ func checkC12(c *Ctx, r *Report) {
 					problems = append(problems, "no lookup of the existing entry under the same key before the insert: an overwrite adds the new size on top of the old one and counts the entry twice")
 				}
 			} else {
+				if !li.HeldMustX(L)["S"] {
+					problems = append(problems, "the lookup of the existing entry at "+c.InstrPos(L)+" is made without the key's shard lock (must-hold="+li.HeldMust(L).String()+"): its answer can be stale by the time the map is changed, so an overwrite is counted as a new entry (or the other way round) and the counters drift")
+				}
 				okv := ssa.Value(extractOf(L, 1))
 				old := ssa.Value(extractOf(L, 0))
 				if extractOf(L, 1) == nil || extractOf(L, 0) == nil {
@@ -244,6 +247,9 @@ func checkC12(c *Ctx, r *Report) {
 			if L == nil || extractOf(L, 0) == nil || extractOf(L, 1) == nil {
 				problems = append(problems, "the entry being removed is not looked up under the same key (size to subtract cannot be the recorded one)")
 			} else {
+				if !li.HeldMustX(L)["S"] {
+					problems = append(problems, "the lookup of the existing entry at "+c.InstrPos(L)+" is made without the key's shard lock (must-hold="+li.HeldMust(L).String()+"): its answer can be stale by the time the map is changed, so an overwrite is counted as a new entry (or the other way round) and the counters drift")
+				}
 				okv := ssa.Value(extractOf(L, 1))
 				old := ssa.Value(extractOf(L, 0))
 				if len(decE) == 0 {
